@@ -199,8 +199,12 @@ func ValidateStructure(ds *DocShape, prepath string, identifiers bool) error {
 			if self != raw && self != esc && self != esc2 {
 				return fmt.Errorf("%s: self link %q is not prefix+type+\"/\"+id = %q", ro.Where, self, raw)
 			}
-		} else if !strings.HasPrefix(self, prepath) {
-			return fmt.Errorf("%s: self link %q does not start with the prefix %q", ro.Where, self, prepath)
+		} else if self != prefix && self != prefix+ro.Type+"/" && self != prefix+url.PathEscape(ro.Type)+"/" {
+			// Without an ID (or a type name) the link is the prefix, or the
+			// prefix and the type with nothing behind: either way made of
+			// the same parts, with one slash between them however the
+			// prefix was spelled.
+			return fmt.Errorf("%s: self link %q of a resource without ID is neither the prefix %q nor prefix+type+\"/\"", ro.Where, self, prefix)
 		}
 
 		if relsAny, ok := ro.Obj["relationships"]; ok {
